@@ -312,6 +312,52 @@ def main():
                 res = call("apply_serialized(after-apply)", lambda: jsonlogic_rs.apply_serialized(r2, d2), r2, d2)
                 judge("apply_serialized(after-apply)", "c19.stateless-wrapper", res, o2, r2, d2, want2)
                 mutate()
+    # ---- every call returns a value of its own: mutating a returned list / dict and repeating the call ----
+    for rule_o, data_o in (({"var": "a"}, {"a": [1, 2, {"k": "v"}]}), ({"merge": [[1], [2]]}, None), ({"var": ""}, {"x": {"y": [0]}}), ({"map": [[1, 2], {"+": [{"var": ""}, 1]}]}, None), ({"cat": ["a", "b"]}, None)):
+        r2, d2 = json.dumps(rule_o), json.dumps(data_o)
+        o2 = LIB.ask(r2, d2)
+        want2 = json.loads(o2["ret"]["ok"]) if "ok" in o2["ret"] else NOVALUE
+        for label, fn in (("apply(repeat-after-mutating-result)", lambda: jsonlogic_rs.apply(rule_o, data_o)), ("apply_serialized(repeat-after-mutating-result)", lambda: jsonlogic_rs.apply_serialized(r2, d2)),
+                          ("apply_serialized(de, repeat-after-mutating-result)", lambda: jsonlogic_rs.apply_serialized(r2, d2, json.loads))):
+            for rounds in range(3):
+                res = call(label, fn, r2, d2)
+                judge(label, "c19.stateless-wrapper", res, o2, r2, d2, want2)
+                if res[0] == "ok":
+                    got = res[1]
+                    if isinstance(got, list):
+                        got.append("MUTATED-BY-CALLER")
+                    elif isinstance(got, dict):
+                        got["MUTATED-BY-CALLER"] = True
+    # ---- a `log` whose line cannot be written (fd 1 = /dev/full): a value or a ValueError, never a
+    # Rust panic surfacing as SystemError; and whatever happened there must not change later calls
+    try:
+        sys.stdout.flush()
+        keep = os.dup(1)
+        bad = os.open("/dev/full", os.O_WRONLY)
+        os.dup2(bad, 1)
+        try:
+            for rule_o in ({"log": 1}, {"cat": [{"log": "a"}, "b"]}, {"map": [[1, 2], {"log": {"var": ""}}]}):
+                r2 = json.dumps(rule_o)
+                res = call("apply(log, stdout unwritable)", lambda: jsonlogic_rs.apply(rule_o, None), r2, "null")
+                m = mon("c01.python")
+                m["observed"] += 1
+                m["judged"] += 1
+                cell("py:log-unwritable-stdout:" + ("value" if res[0] == "ok" else type(res[1]).__name__))
+                if res[0] == "exc" and not isinstance(res[1], ValueError):
+                    V("c01.python", "exception-type:%s:log-unwritable-stdout" % type(res[1]).__name__, r2, "null", "a value or ValueError", repr(res[1])[:300],
+                      "a log whose line could not be written (fd 1 = /dev/full) surfaced as something other than a value or ValueError")
+        finally:
+            os.dup2(keep, 1)
+            os.close(keep)
+            os.close(bad)
+        for rule_o, data_o in (({"var": "a"}, {"a": 1}), ({"+": [1, 2]}, None), ({"/": [1]}, None), ({"cat": ["x", {"var": ""}]}, "y")):
+            r2, d2 = json.dumps(rule_o), json.dumps(data_o)
+            o2 = LIB.ask(r2, d2)
+            want2 = json.loads(o2["ret"]["ok"]) if "ok" in o2["ret"] else NOVALUE
+            res = call("apply(after unwritable stdout)", lambda: jsonlogic_rs.apply(rule_o, data_o), r2, d2)
+            judge("apply(after unwritable stdout)", "c19.stateless-wrapper", res, o2, r2, d2, want2)
+    except OSError:
+        cell("py:log-unwritable-stdout:skipped")
     # non-finite floats and other objects json.dumps turns into non-JSON text -> ValueError
     for obj in (float("nan"), float("inf"), [1, float("-inf")], {"a": float("nan")}):
         for label, fn in (("apply(nan-rule)", lambda: jsonlogic_rs.apply(obj, None)), ("apply(nan-data)", lambda: jsonlogic_rs.apply({"var": ""}, obj))):
